@@ -93,9 +93,23 @@ def sampling(ctx, nq, ranks, measure, ns, cplx=True):
     label = 'samples are generated by inverse-CDF sampling from the exact conditional Born probabilities'
     if not ctx.sym:
         # concrete replay: right-orthonormalise and normalise a random state, fix the uniforms, compare with the dense oracle
-        psi = TT(mk_cores(ctx, 'psi', s, cplx))
-        psi.ortho_right()
-        psi = psi * (1 / psi.norm())
+        if cplx is True:
+            psi = TT(mk_cores(ctx, 'psi', s, True))
+            psi.ortho_right()
+            psi = psi * (1 / psi.norm())
+        else:
+            # mixed dtypes: a REAL right-orthonormal, normalised state with complex single-qubit unitaries applied to the masked sites afterwards
+            # (local unitaries keep right-orthonormality and the norm; re-orthonormalising would push the complex dtype into every core)
+            from .common import cplx_mask
+            raw = mk_cores(ctx, 'psi', s, cplx)
+            psi = TT([np.real(np.asarray(c)).astype(float) for c in raw])
+            psi.ortho_right()
+            psi = psi * (1 / psi.norm())
+            for q, on in enumerate(cplx_mask(cplx, nq)):
+                if on:
+                    a = 0.7 + float(np.real(np.asarray(raw[q]).reshape(-1)[0]))
+                    G = np.array([[np.cos(a), 1j * np.sin(a)], [1j * np.sin(a), np.cos(a)]]) @ np.diag([np.exp(0.4j), np.exp(-0.9j)])
+                    psi.cores[q] = np.einsum('ij,ajkb->aikb', G, psi.cores[q])
         nsc = 400                       # the claim is per sample: the concrete run uses many uniforms so that a wrong conditional flips some outcome
         u = ctx.rng.rand(nsc, k)
         real_rand = np.random.rand
